@@ -16,6 +16,7 @@ package msg
 
 import (
 	"io"
+	"sync"
 
 	jsonMsg "github.com/fatedier/golib/msg/json"
 )
@@ -28,6 +29,27 @@ func init() {
 	msgCtl = jsonMsg.NewMsgCtl()
 	for typeByte, msg := range msgTypeMap {
 		msgCtl.RegisterMsg(typeByte, msg)
+	}
+}
+
+// defaultMaxMsgLength is the limit golib's message controller starts with.
+const defaultMaxMsgLength = 10240
+
+var (
+	maxMsgLengthMu sync.Mutex
+	maxMsgLength   int64 = defaultMaxMsgLength
+)
+
+// EnsureUDPPacketSize raises the message length limit, if necessary, so that a UDPPacket
+// message carrying a base64 encoded payload of udpPacketSize bytes can be read.
+// It is called once at start-up with the configured udpPacketSize.
+func EnsureUDPPacketSize(udpPacketSize int64) {
+	need := (udpPacketSize+2)/3*4 + 512
+	maxMsgLengthMu.Lock()
+	defer maxMsgLengthMu.Unlock()
+	if need > maxMsgLength {
+		maxMsgLength = need
+		msgCtl.SetMaxMsgLength(need)
 	}
 }
 
